@@ -26,6 +26,8 @@ def cpp_type(ty):
         return "hv::Blob<%s>" % ty[1:]
     if ty[0] == "t":
         return "hv::Trk<%s>" % ty[1:]
+    if ty[0] == "c":
+        return "hv::Trc<%s>" % ty[1:]
     raise ValueError(ty)
 
 
@@ -65,7 +67,7 @@ class Cfg:
         return "plain"
 
     def tracked(self):
-        return any(p[1][0] == "t" for p in self.params)
+        return any(p[1][0] in "tc" for p in self.params)
 
     def nfixed(self):
         return sum(1 for p in self.params if p[0] == "f")
@@ -182,6 +184,10 @@ CORPUS = [
     Cfg("trk-tail-odd", [("p", "u16", 2), ("v", "t5", 1), ("p", "b3", 1)]),
     Cfg("trk-tail-aligned16", [("p", "u32", 4), ("v", "t12", 16), ("p", "b5", 1)]),
     Cfg("trk-fixed-tail", [("f", "t5", 1), ("p", "u32", 4), ("p", "b3", 1)]),
+    # value types whose CONSTRUCTORS are user-provided while assignment is trivial: relocation must construct, assignment may memmove
+    Cfg("trc-fixed", [("p", "u32", 1), ("f", "c8", 1)]),
+    Cfg("trc-mixed-trivial", [("p", "u32", 4), ("p", "c8", 1), ("f", "f32", 1), ("f", "c12", 1)]),
+    Cfg("trc-varying", [("p", "u8", 1), ("v", "c5", 1), ("p", "c8", 4)]),
 ]
 
 
@@ -454,6 +460,9 @@ def gen_compare(rng, cfg, n_cmp):
             text, pay, _ = gen_elem(rng, cfg, fx, 2, 20, vmax=2)
             lines.append("emplace v%d %s" % (k, text))
             sizes[k] += 1
+    # an empty vector that never held anything (block serial numbers are compared, so it is created before the comparisons,
+    # which allocate temporaries on the implementation side only)
+    lines.append("new v4 %d 32 %s 1" % (rng.choice([0, 2]), fixed_text(fixed)))
     # make one vector a copy-by-value of another now and then (equal content in different memory)
     for _ in range(n_cmp):
         r = rng.random()
@@ -477,6 +486,12 @@ def gen_compare(rng, cfg, n_cmp):
                 text, pay, _ = gen_elem(rng, cfg, fixed_of[a], 2, 8, vmax=2)
                 lines.append("emplace v%d %s" % (a, text))
                 sizes[a] += 1
+    # a moved-from vector is an empty vector for every comparison, whatever its bookkeeping still holds
+    m = rng.randrange(3)
+    lines.append("move v%d v3" % m)
+    for other in (0, 1, 2, 3, 4):
+        lines.append("cmpv v%d v%d" % (m, other))
+        lines.append("cmpv v%d v%d" % (other, m))
     lines.append("end")
     return lines
 
@@ -617,6 +632,16 @@ def gen_fault_matrix(rng, cfg, faults=(0, 1)):
             if op.startswith("swap v0 v1") and not pocs_ok:
                 continue   # allocator-aware swap of unequal non-propagating allocators is outside the contract
             lines += [op, "dump v0", "dump v1", "dump v2"]
+            if op.startswith("moveassign v0 v1") or op.startswith("copyassign v0 v1"):
+                # a target whose block is LARGER in bytes but declared for FEWER elements than the source: the block is reused,
+                # the offset table must still get one slot per element of the source's capacity
+                big = 8 * pay0 + 256
+                lines += ["new v5 1 %d %s 2" % (big, fixed_text(fixed_b)), "emplace v5 %s" % gen_elem(rng, cfg, fixed_b, 3, 10 ** 9, same)[0],
+                          "new v6 4 %d %s 1" % (4 * pay0, fixed_text(fixed))]
+                for _ in range(3):
+                    lines.append("emplace v6 %s" % gen_elem(rng, cfg, fixed, 3, 10 ** 9, same)[0])
+                lines += [op.split()[0] + " v6 v5", "dump v5", "dump v6", "emplace v5 %s" % gen_elem(rng, cfg, fixed, 3, 10 ** 9, same)[0], "dump v5",
+                          "destroy v5", "destroy v6"]
             lines += ["new v4 2 %d %s 1" % (2 * pay0, fixed_text(fixed_b)), "emplace v4 %s" % gen_elem(rng, cfg, fixed_b, 3, 10 ** 9, same)[0],
                       "clear v1", "dump v1", "copyassign v4 v1", "dump v1", "moveassign v4 v0", "dump v0", "dump v4",
                       "destroy v0", "destroy v1", "destroy v2", "destroy v4", "end"]
@@ -632,6 +657,29 @@ def gen_fault_matrix(rng, cfg, faults=(0, 1)):
                       "destroy v0", "destroy v1", "end"]
             seqs.append(lines)
     return seqs
+
+
+def gen_capacity_sweep(rng, cfg):
+    """construct (and destroy) vectors over a grid of capacities and payload budgets: the footprint formula at the small
+    capacities 0, 1, 2 and at every residue of the budget modulo the storage alignment, then reserve over the same grid"""
+    lines = ["tables"]
+    fixed = [rng.choice([0, 1, 2, 3]) for _ in range(cfg.nfixed())]
+    if not any(p[0] == "p" for p in cfg.params) and sum(fixed) == 0:
+        fixed[0] = 1
+    has_var = cfg.category() in ("varying", "mixed")
+    budgets = ([0, 1, 3, 4, 7, 8, 9, 15, 16, 17, 24, 31, 33] if has_var else [0])
+    for cap in (0, 1, 2, 3, 5):
+        for b in budgets:
+            lines.append("new v0 %d %d %s 1" % (cap, b, fixed_text(fixed)))
+            lines.append("destroy v0")
+    lines.append("new v0 0 0 %s 1" % fixed_text(fixed))
+    cap = 0
+    for b in rng.sample(budgets, min(len(budgets), 5)):
+        cap += rng.choice([1, 1, 2])
+        lines.append("reserve v0 %d %d" % (cap, b + cap))
+    lines.append("destroy v0")
+    lines.append("end")
+    return lines
 
 
 def gen_tight_fill(rng, cfg, mode):
